@@ -457,6 +457,7 @@ type DiffOpts struct {
 	IgnoreEmptyList bool // [] equals absent
 	IgnoreEmptyCont bool // {} equals absent
 	AllowDefaults   bool // got may additionally hold an unset leaf at its schema default (reads may report defaults)
+	ZeroIsUnset     bool // a non-key leaf holding the zero value of its Go type counts as unset on both sides (struct stores)
 }
 
 func isDefaultOf(d *Node, gv interface{}) bool {
@@ -481,6 +482,10 @@ func isDefaultOf(d *Node, gv interface{}) bool {
 
 // Diff returns human readable differences between want and got (content of n); empty = equal.
 func Diff(n *Node, want, got Tree, o DiffOpts, where string) []string {
+	if o.ZeroIsUnset {
+		o.ZeroIsUnset = false
+		want, got = StripZero(n, want), StripZero(n, got)
+	}
 	var out []string
 	names := map[string]bool{}
 	for k := range want {
